@@ -1103,6 +1103,11 @@ def run(ctx):
             nprop += compare_two(ctx, r, ev, t, ty, lines, expect, meta)
         if nprop >= 8:
             break
+    if nprop < 8:
+        # round 8: CQM expression views with histories, sum / quicksum with start values (harness/props/c06_views.py)
+        import sys
+        from harness.props import c06_views
+        nprop += c06_views.run_views(ctx, sys.modules[__name__], lines, expect, meta)
     got = run_driver('symdriver', lines)
     ctx.corr_lines += len(lines)
     for i, ln in enumerate(lines):
